@@ -353,10 +353,10 @@ class C10(Check):
                     j = min(int(round(t / h)), nst)
                     d = abs(got[row] - ys[j][n])
                     worst = max(worst, d / max(scale, 1e-9))
-                    if d > 2e-3 * max(scale, 1e-3):
+                    if d > 1e-2 * max(scale, 1e-3):
                         V('L-traj', 'silent', 'adaptive',
                           f'{n} at t={t}: run returned {got[row]!r}, method-of-steps reference {ys[j][n]!r} '
-                          f'(|diff| {d:.3e} > 2e-3*{scale:.3g})')
+                          f'(|diff| {d:.3e} > 1e-2*{scale:.3g})')
                         return res
             res['maxima'] = {'adaptive_dde_err_over_scale': worst}
         min_delay = min([i['p']['tau'] for i in net.inst.values() if i['lib'] in ('dd', 'ddt')] +
